@@ -180,7 +180,7 @@ def check_conversion(spec, viols, key=""):
     names = sorted((d.name, str(d.version)) for d in deps)
     from htmltools._versions import versions
     exp = sorted([("react", versions["react"]), ("react-dom", versions["react-dom"])]
-                 + expected_deps(spec))
+                 + expected_deps(deref_j(spec)))
     if names != exp:
         viols.append((key + "dependencies", "dependencies carried by the <script> are not react, "
                       "react-dom plus the metadata nodes of the tree",
@@ -204,7 +204,7 @@ def check_conversion(spec, viols, key=""):
         viols.append((key + "expression-unparsable", f"generated expression does not parse: {e}",
                       {"js": str(texts[0])}))
         return res
-    want = expected_node(spec)
+    want = expected_node(deref_j(spec))
     if got != want:
         viols.append((key + "expression-mismatch", "React.createElement expression does not mirror the component",
                       {"observed": got, "expected": want, "js": str(texts[0])}))
@@ -233,6 +233,20 @@ def walk_j(spec):
             yield from walk_j(c)
     elif k == "XJ":
         yield from walk_j(spec[1])
+
+
+def deref_j(spec):
+    """["REF", k] among a component's children -> the spec of child k (the reference model sees two equal children)."""
+    if isinstance(spec, list) and spec and spec[0] == "J":
+        kids = []
+        for c in spec[3]:
+            kids.append(kids[c[1]] if c[0] == "REF" else deref_j(c))
+        return [spec[0], spec[1], [[a, deref_j(v) if isinstance(v, list) else v] for a, v in spec[2]], kids, spec[4]]
+    if isinstance(spec, list) and spec and spec[0] in ("E", "ES"):
+        return [spec[0], spec[1], spec[2], spec[3], [deref_j(c) for c in spec[4]]]
+    if isinstance(spec, list) and spec and spec[0] == "XJ":
+        return ["XJ", deref_j(spec[1])]
+    return spec
 
 
 def fn_tree(spec):
@@ -427,6 +441,17 @@ def plan(tier):
                          "names (SVG's clipPath, foreignObject): mirrored under their own names, nested components kept"))
     sty = [{"color": "red", "margin": 0}, {"color": None, "margin": 0}, {}, {"fontSize": 2.5, "a-b": True},
            {"o": {"nested": 1}, "l": ["LIST", [1, None]]}]
+    shared = [Etag("div", [T("t"), ["XJ", Etag("p", [dep("shared-x")])]]), Etag("span", [dep("shared-d")], ws=False),
+              J("Inner", [["XJ", T("xi")], dep("shared-j")], [("k", 1)]), ["XJ", Etag("u", [dep("shared-xx")])],
+              Etag("div", [J("Deep", [["XJ", dep("deep-x")]])])]
+    same = []
+    for sh in shared:
+        same.append(J("Foo", [sh, ["REF", 0]]))
+        same.append(J("Foo", [T("a"), sh, Etag("i", [T("m")]), ["REF", 1]], [("p", 1)], "append"))
+        same.append(J("Outer", [J("Mid", [sh, ["REF", 0], ["REF", 0]])]))
+    out.append(dict(kind="space", name="same-object-at-several-places", fn=fn_tree, space=Const(same),
+                    note="one Tag / component / tagifiable object occurring two or three times among a component's children "
+                         "(with tagifiable descendants and dependencies): each occurrence is converted"))
     out.append(dict(kind="space", name="style-prop-given-as-dict", fn=fn_props,
                     space=Prod(Prod(Const(["style"]), Const(sty)), Prod(Const(["p", "style"]), Const(sty + [None, "s"])),
                                Const(["ctor", "append"])),
